@@ -21,7 +21,7 @@ ASSUMPTIONS = [
     "CUT: precise_diff inside Interval.__init__ is stubbed (component breakdown is C06's subject)",
 ]
 OUTSIDE = ["more than K steps", "step sizes above 12", "named zones with transitions inside the interval (quick tier)"]
-REACH = ["end is reachable and yielded", "end not reachable", "month step from day 31 clamps", "inverted interval", "empty tail"]
+REACH = ["end is reachable and yielded", "end not reachable", "month step from day 31 clamps", "inverted interval"]
 UNITS_DT = ["years", "months", "weeks", "days", "hours", "minutes", "seconds", "microseconds"]
 UNITS_D = ["years", "months", "weeks", "days"]
 FIXED_US = dict(hours=3600 * 10**6, minutes=60 * 10**6, seconds=10**6, microseconds=1)
@@ -50,15 +50,15 @@ def _val_us(x, is_date):
     return o + (cal.sod(x.hour, x.minute, x.second)) * 10**6 + x.microsecond
 
 
-def rng(ctx, kind, unit, K, direction, via="range"):
+def rng(ctx, kind, unit, K, direction, via="range", nmax=12):
     with cut(ctx, "pendulum.interval", "precise_diff", _no_breakdown):
-        return _rng(ctx, kind, unit, K, direction, via)
+        return _rng(ctx, kind, unit, K, direction, via, nmax)
 
 
-def _rng(ctx, kind, unit, K, direction, via):
+def _rng(ctx, kind, unit, K, direction, via, nmax=12):
     P = ctx.P
     is_date = kind == "date"
-    n = ctx.concrete(ctx.int("n", 1, 12)) if via == "range" else 1
+    n = ctx.concrete(ctx.int("n", 1, nmax)) if via == "range" else 1
     y = ctx.year("y", 1998, 2000)
     m = ctx.int("m", 1, 12)
     d = ctx.int("d", 1, 31)
@@ -135,13 +135,14 @@ def contains(ctx, kind):
 
 def cases(tier):
     K = 3 if tier == "quick" else 12
+    nmax = 3 if tier == "quick" else 12
     out = []
     for kind, units in (("date", UNITS_D), ("utc", UNITS_DT)):
         for unit in units:
             for direction in ("forward", "inverted") + (("absolute_swapped",) if unit in ("months", "days") or tier != "quick" else ()):
                 out.append(dict(name=f"{kind} range {unit} {direction}", fn=rng,
-                                params=dict(kind=kind, unit=unit, K=K, direction=direction),
-                                bounds=f"every {kind} start in years 1998..2000, step n in 1..12 {unit}, every end such that at most {K} values are yielded, {direction}"))
+                                params=dict(kind=kind, unit=unit, K=K, direction=direction, nmax=nmax),
+                                bounds=f"every {kind} start in years 1998..2000, step n in 1..{nmax} {unit}, every end such that at most {K} values are yielded, {direction}"))
     for kind in ("date", "utc"):
         out.append(dict(name=f"{kind} iteration by days", fn=rng, params=dict(kind=kind, unit="days", K=K, direction="forward", via="iter"),
                         bounds=f"direct iteration (days), at most {K} values"))
